@@ -791,13 +791,17 @@ class TrajectoryStore:
                 'All trajectories in an indexable TrajectoryStore must have '
                 'flight_id field, and non-indexable stores must not have it'
             )
-        if self.indexable is None:
-            self.indexable = has_flight_id
 
         # Maintain count of trajectories in store for indexing.
         saved_index = self._next_index
         self._trajectories[saved_index] = trajectory
         self._next_index += 1
+
+        # The cache refuses a trajectory that is larger than the whole cache, so
+        # whether the store is indexable is decided only once the trajectory
+        # has been accepted.
+        if self.indexable is None:
+            self.indexable = has_flight_id
 
         # If this is the first trajectory added to the store, we might need to
         # create the NetCDF files.
